@@ -1,9 +1,10 @@
 #!/bin/sh
-# Builds the engine from files on disk only (offline).
+# Builds the engine from files on disk only (offline) and runs the machinery's self-tests.
 set -e
-cd "$(dirname "$0")/engine"
+cd "$(dirname "$0")"
 GO=/root/go/pkg/mod/golang.org/toolchain@v0.0.1-go1.24.0.linux-amd64/bin/go
 export GOFLAGS=-mod=mod GOPROXY=off GOTOOLCHAIN=local
-mkdir -p ../bin
-"$GO" build -o ../bin/verif ./cmd/verif
+mkdir -p bin
+(cd engine && "$GO" build -o ../bin/verif ./cmd/verif)
 echo "built /verif/bin/verif"
+if [ "${VERIF_SKIP_SELFTEST:-}" = "" ]; then ./selftest.sh; fi
